@@ -81,3 +81,42 @@ package config
 //@   props C18
 //@   ensures documented_configurations_load: docAllButLogging(c) && docLevel(c.Logging.Level) && docFormat(c.Logging.Format) ==> result == nil
 //@   ensures invalid_configurations_rejected: result == nil ==> docAllButLogging(c) && tolLevel(c.Logging.Level) && tolFormat(c.Logging.Format)
+
+// ---- loading a file: keys that an enabled section leaves out take their documented defaults.
+// The README's "Basic Configuration" enables the circuit breaker giving only failure_threshold and enables
+// metrics giving only the port; the balancer and the metrics server document the defaults of the omitted keys
+// (success threshold 1, timeout and interval 60 s, failure threshold 5, port 9090, path /metrics). A decoded
+// file cannot tell "omitted" from 0, so at file level 0 means default: LoadConfig must fill the defaults in
+// before it validates, and a file is accepted exactly when the result is a documented configuration.
+//@ pred fileBreaker(c *Config) := c.CircuitBreaker.Enabled ==> c.CircuitBreaker.FailureThreshold >= 0 && c.CircuitBreaker.SuccessThreshold >= 0
+//@      && c.CircuitBreaker.TimeoutSeconds >= 0 && c.CircuitBreaker.IntervalSeconds >= 0 && c.CircuitBreaker.MaxRequests >= 0
+//@ pred fileMetrics(c *Config) := c.Metrics.Enabled ==> c.Metrics.Port == 0 || portOK(c.Metrics.Port)
+//@ func (*Config).applyDefaults
+//@   props C18
+//@   requires c != nil
+//@   ensures omitted_breaker_keys_become_valid: old(fileBreaker(c)) <==> docBreaker(c)
+//@   ensures omitted_metrics_keys_become_valid: old(fileMetrics(c)) <==> docMetrics(c)
+//@   ensures given_values_are_kept: (old(c.CircuitBreaker.FailureThreshold) != 0 ==> c.CircuitBreaker.FailureThreshold == old(c.CircuitBreaker.FailureThreshold))
+//@             && (old(c.CircuitBreaker.SuccessThreshold) != 0 ==> c.CircuitBreaker.SuccessThreshold == old(c.CircuitBreaker.SuccessThreshold))
+//@             && (old(c.CircuitBreaker.TimeoutSeconds) != 0 ==> c.CircuitBreaker.TimeoutSeconds == old(c.CircuitBreaker.TimeoutSeconds))
+//@             && (old(c.CircuitBreaker.IntervalSeconds) != 0 ==> c.CircuitBreaker.IntervalSeconds == old(c.CircuitBreaker.IntervalSeconds))
+//@             && (old(c.Metrics.Port) != 0 ==> c.Metrics.Port == old(c.Metrics.Port)) && (old(c.Metrics.Path) != "" ==> c.Metrics.Path == old(c.Metrics.Path))
+//@   ensures disabled_sections_untouched: (!c.CircuitBreaker.Enabled ==> c.CircuitBreaker.FailureThreshold == old(c.CircuitBreaker.FailureThreshold)
+//@             && c.CircuitBreaker.SuccessThreshold == old(c.CircuitBreaker.SuccessThreshold) && c.CircuitBreaker.TimeoutSeconds == old(c.CircuitBreaker.TimeoutSeconds)
+//@             && c.CircuitBreaker.IntervalSeconds == old(c.CircuitBreaker.IntervalSeconds))
+//@             && (!c.Metrics.Enabled ==> c.Metrics.Port == old(c.Metrics.Port) && c.Metrics.Path == old(c.Metrics.Path))
+//@   modifies c.CircuitBreaker.FailureThreshold, c.CircuitBreaker.SuccessThreshold, c.CircuitBreaker.TimeoutSeconds, c.CircuitBreaker.IntervalSeconds, c.Metrics.Port, c.Metrics.Path
+
+//@ ghost var defaultsApplied Int
+//@ ghost var validatedWithDefaults Int
+//@ func LoadConfig
+//@   props C18
+//@   results cfg, err
+//@   ghost entry :: defaultsApplied := 0
+//@   ghost entry :: validatedWithDefaults := 0
+//@   ghost after applyDefaults :: defaultsApplied := 1
+//@   ghost before Validate :: validatedWithDefaults := defaultsApplied
+//@   ensures omitted_keys_take_their_defaults_before_validation: err == nil ==> validatedWithDefaults == 1
+//@   ensures error_means_no_configuration: err != nil ==> cfg == nil
+//@   ensures loaded_configuration_is_valid: err == nil ==> cfg != nil && docAllButLogging(cfg) && tolLevel(cfg.Logging.Level) && tolFormat(cfg.Logging.Format)
+//@   modifies defaultsApplied, validatedWithDefaults
